@@ -231,8 +231,13 @@ class SDict(object):
 
 
 class SSet(object):
+    """set: concrete-keyed members `d` plus, for sets of ints, symbolic intervals `ranges` [(lo, hi), ...]
+    (members lo <= x < hi) and removed intervals `minus` (set difference with an interval set)"""
     def __init__(self, items=()):
         self.d = {}
+        self.ranges = []
+        self.minus = None
+        self.pred = None         # (lo, hi, z3 predicate): arbitrary further members within [lo, hi)
         for k, v in items:
             self.d[k] = v
 
